@@ -873,7 +873,17 @@ impl Evaluator<'_, '_, '_, '_> {
 
             ForIterator::List(exprs) => {
                 for expr in exprs {
-                    match self.evaluate_expr(expr)? {
+                    let value = match self.evaluate_expr(expr) {
+                        Ok(v) => v,
+                        // An undefined element ends the iteration with an undefined result. But
+                        // if the body could not be computed on some previous elements, those
+                        // may yield a result before this element is reached.
+                        Err(PoisonKind::Undefined) if nb_vars_needed > 0 => {
+                            return Err(PoisonKind::VarNeeded);
+                        }
+                        Err(e) => return Err(e),
+                    };
+                    match value {
                         Value::Integer(value) => {
                             self.bounded_identifiers_stack
                                 .push(ModuleValue::Integer(value));
